@@ -1,5 +1,5 @@
 """Determinism runner of C14: started by harness/p_c14.py once per PYTHONHASHSEED value, in its own process.
-usage: c14_runner.py <base_seed> <first_idx> <count> [--bytes <idx> <writer>]
+usage: c14_runner.py <base_seed> <idx,idx,...> [--bytes <idx> <writer>]
 Rebuilds case idx from (base_seed, idx), exports a FRESH deep copy with every writer twice, and prints one JSON line per case:
   {"idx":..., "state": <digest of the matrix snapshot>, "w": {writer: sha256 | "REJ ..."}, "same_process": [writers whose 2nd export differs]}
 --bytes prints the exported bytes (hex) of one writer on one case instead (used to show the first differing line)."""
@@ -17,24 +17,31 @@ import c14_cases as K
 
 
 def main():
-    base_seed, first, count = int(sys.argv[1]), int(sys.argv[2]), int(sys.argv[3])
+    import resource
+    resource.setrlimit(resource.RLIMIT_AS, (8 << 30, 8 << 30))
+    base_seed = int(sys.argv[1])
+    idxs = [int(x) for x in sys.argv[2].split(",") if x.strip() not in ("", "none")]
     cm = core.import_impl()
     import canmatrix.formats as F
     C = cm.canmatrix
     tmp = tempfile.mkdtemp(prefix="c14run_", dir="/tmp")
     try:
-        if len(sys.argv) > 4 and sys.argv[4] == "--bytes":
-            idx, w = int(sys.argv[5]), sys.argv[6]
+        if len(sys.argv) > 3 and sys.argv[3] == "--bytes":
+            idx, w = int(sys.argv[4]), sys.argv[5]
             db, _ = K.build_case(base_seed, idx, C)
-            print(K.export(F, copy.deepcopy(db), w, tmp).hex())
+            print(K.export(F, K.copier(db, base_seed, idx, C)(), w, tmp).hex())
             return
-        for idx in range(first, first + count):
+        for idx in idxs:
             db, info = K.build_case(base_seed, idx, C)
+            if db is None:
+                print(json.dumps({"idx": idx, "skipped": info.get("skipped")}))
+                continue
             out = {"idx": idx, "state": K.digest(K.snapshot(db)), "w": {}, "same_process": [],
                    "hashseed": os.environ.get("PYTHONHASHSEED")}
+            fresh = K.copier(db, base_seed, idx, C)
             for w in K.WRITER_KEYS:
-                r1 = K.try_export(F, copy.deepcopy(db), w, tmp)
-                r2 = K.try_export(F, copy.deepcopy(db), w, tmp)
+                r1 = K.try_export(F, fresh(), w, tmp)
+                r2 = K.try_export(F, fresh(), w, tmp)
                 if r1[0] == "ok":
                     out["w"][w] = hashlib.sha256(r1[1]).hexdigest()[:24]
                     if r2 != r1:
